@@ -52,14 +52,15 @@ def _dataclass_arguments(decorators: list[Decorator]) -> dict[str, Any]:
     return {}
 
 
-def _field_arguments(attribute: Attribute) -> dict[str, Any]:
+def _field_arguments(attribute: Attribute) -> dict[str, Any] | None:
+    # Return the arguments of the `field()` call, or `None` if the attribute is not assigned a `field()` call.
     if attribute.value:
         value = attribute.value
         if isinstance(value, ExprAttribute):
             value = value.last
         if isinstance(value, ExprCall) and value.canonical_path == "dataclasses.field":
             return _expr_args(value)
-    return {}
+    return None
 
 
 @cache
@@ -102,17 +103,21 @@ def _dataclass_parameters(class_: Class) -> list[Parameter]:
                 kw_only = True
                 continue
 
-            # Fetch `field` arguments if any.
+            # Fetch `field` arguments if any (a bare `field()` call has no arguments but is still a `field` call).
             field_args = _field_arguments(member)
+            is_field = field_args is not None
+            field_args = field_args or {}
 
             # Parameter not added to `__init__`, skip it.
             if field_args.get("init") == "False":
                 continue
 
-            # Determine parameter kind.
+            # Determine parameter kind: an explicit `kw_only` argument on the field
+            # takes precedence over the decorator argument and the `KW_ONLY` marker.
+            field_kw_only = field_args.get("kw_only")
             kind = (
                 ParameterKind.keyword_only
-                if kw_only or field_args.get("kw_only") == "True"
+                if field_kw_only == "True" or (kw_only and field_kw_only != "False")
                 else ParameterKind.positional_or_keyword
             )
 
@@ -120,7 +125,7 @@ def _dataclass_parameters(class_: Class) -> list[Parameter]:
             if "default_factory" in field_args:
                 default = ExprCall(function=field_args["default_factory"], arguments=[])
             else:
-                default = field_args.get("default", None if field_args else member.value)
+                default = field_args.get("default", None if is_field else member.value)
 
             # Add parameter to the list.
             parameters.append(
